@@ -861,6 +861,7 @@ def check_texts(ctx, items, fam):
                 small = lit
                 break
         detail = small.strip(" \t\n\r")
+        detail = "".join(c if 0x20 <= ord(c) != 0x7f else "\\x%02x" % ord(c) for c in detail)   # one-line keys
         detail = detail if len(detail) <= 60 else "text:len>60"
         ctx.report("text:%s:%s" % (route, cls), detail,
                    {"kind": "text", "route": route, "class": cls, "family": fam, "text": small,
